@@ -142,6 +142,11 @@ func (la *ShareAvailability) SharesAvailable(ctx context.Context, header *header
 
 	smpls, errGetSamples := la.getter.GetSamples(samplingCtx, header, idxs)
 	if len(smpls) == 0 {
+		// Nothing was retrieved. Keep the selected coordinates, so that a retry samples
+		// the same coordinates instead of drawing a new set.
+		if err := la.storeSamplingResult(ctx, key, samples); err != nil {
+			return err
+		}
 		return share.ErrNotAvailable
 	}
 
@@ -158,15 +163,8 @@ func (la *ShareAvailability) SharesAvailable(ctx context.Context, header *header
 	samples.Remaining = failedSamples
 
 	// Store the updated sampling result
-	updatedData, err := json.Marshal(samples)
-	if err != nil {
+	if err := la.storeSamplingResult(ctx, key, samples); err != nil {
 		return err
-	}
-	la.dsLk.Lock()
-	err = la.ds.Put(ctx, key, updatedData)
-	la.dsLk.Unlock()
-	if err != nil {
-		return fmt.Errorf("store sampling result: %w", err)
 	}
 
 	if errors.Is(errGetSamples, context.Canceled) {
@@ -180,6 +178,25 @@ func (la *ShareAvailability) SharesAvailable(ctx context.Context, header *header
 		return share.ErrNotAvailable
 	}
 
+	return nil
+}
+
+// storeSamplingResult persists the sampling result under the given key.
+func (la *ShareAvailability) storeSamplingResult(
+	ctx context.Context,
+	key datastore.Key,
+	samples *SamplingResult,
+) error {
+	data, err := json.Marshal(samples)
+	if err != nil {
+		return err
+	}
+	la.dsLk.Lock()
+	err = la.ds.Put(ctx, key, data)
+	la.dsLk.Unlock()
+	if err != nil {
+		return fmt.Errorf("store sampling result: %w", err)
+	}
 	return nil
 }
 
